@@ -192,10 +192,10 @@ func (f *FuncInfo) AccessesField(field *types.Var) (read, write bool) {
 			return false
 		case *ast.AssignStmt:
 			for _, l := range x.Lhs {
-				lhs[ast.Unparen(l)] = true
+				markLHS(lhs, l)
 			}
 		case *ast.IncDecStmt:
-			lhs[ast.Unparen(x.X)] = true
+			markLHS(lhs, x.X)
 		}
 		return true
 	})
@@ -219,4 +219,23 @@ func (f *FuncInfo) AccessesField(field *types.Var) (read, write bool) {
 		return true
 	})
 	return
+}
+
+// markLHS marks an assignment target and every selector/index prefix of it: a store to
+// x.f.g (or x.f[i]) is a write of field f as well.
+func markLHS(lhs map[ast.Expr]bool, l ast.Expr) {
+	for {
+		l = ast.Unparen(l)
+		lhs[l] = true
+		switch e := l.(type) {
+		case *ast.SelectorExpr:
+			l = e.X
+		case *ast.IndexExpr:
+			l = e.X
+		case *ast.StarExpr:
+			l = e.X
+		default:
+			return
+		}
+	}
 }
